@@ -89,15 +89,30 @@ SettersOf(i) ==
       [] Class(i) = "codegen" -> {<<i, "set", s>> : s \in Subsets(i)} \cup {<<i, "ignore", "functions">>, <<i, "ignore", "methods">>}
       [] Class(i) = "target" -> {<<i, "set", t>> : t \in Targets}
       [] Class(i) = "edition" -> {<<i, "set", e>> : e \in ValuesOf(i)}
-      [] Class(i) = "depfile" -> {<<i, "set", <<"mod", p>> >> : p \in Range(U.abspaths)}
+      [] Class(i) = "depfile" -> {<<i, "set", <<"mod", p>> >> : p \in Range(U.depfiles)}
 
 FormatterIdx == IdxOf("formatter")
+(* documented couplings of setters (L2 only; the ideal builder of L1 has independent setters):   *)
+(* derive_ord(b) also sets derive_partialord = b; derive_eq(true) also sets derive_partialeq;     *)
+(* derive_partialord(false) clears derive_ord; derive_partialeq(false) clears derive_eq;          *)
+(* wasm_import_module_name(n) pushes #[link(wasm_import_module = "n")] on extern_fn_block_attrs   *)
+SetBool(c, i, v) ==
+    LET c1 == [c EXCEPT ![i] = v] IN
+    IF Ideal \/ Rows[i].also = <<>> THEN c1
+    ELSE LET j == IdxOf(Rows[i].also[1]) IN
+         CASE Rows[i].also[2] = "any" -> [c1 EXCEPT ![j] = v]
+           [] Rows[i].also[2] = "true" -> IF v THEN [c1 EXCEPT ![j] = TRUE] ELSE c1
+           [] Rows[i].also[2] = "false" -> IF v THEN c1 ELSE [c1 EXCEPT ![j] = FALSE]
+WasmAttr(x) == (CHOOSE p \in Range(U.wasm) : p[1] = x)[2]
+SetOpt(c, i, x) ==
+    IF Rows[i].kind = "wasm" /\ ~Ideal THEN [c EXCEPT ![IdxOf("extern_fn_block_attrs")] = Append(@, WasmAttr(x))]
+    ELSE IF Rows[i].kind = "abspath" THEN [c EXCEPT ![i] = <<x>>, ![FormatterIdx] = "rustfmt"]   \* documented coupling
+    ELSE [c EXCEPT ![i] = <<x>>]
 Apply(c, s) ==
     LET i == s[1] op == s[2] a == s[3] IN
-    CASE op = "set" /\ Class(i) \in {"optstr", "edition", "depfile"} ->
-            IF Class(i) = "optstr" /\ Rows[i].kind = "abspath"
-            THEN [c EXCEPT ![i] = <<a>>, ![FormatterIdx] = "rustfmt"]   \* documented coupling
-            ELSE [c EXCEPT ![i] = <<a>>]
+    CASE op = "set" /\ Class(i) = "bool" -> SetBool(c, i, a)
+      [] op = "set" /\ Class(i) = "optstr" -> SetOpt(c, i, a)
+      [] op = "set" /\ Class(i) \in {"edition", "depfile"} -> [c EXCEPT ![i] = <<a>>]
       [] op = "set" -> [c EXCEPT ![i] = a]
       [] op = "push" /\ Class(i) = "map" -> [c EXCEPT ![i] = Append(@, a)]   \* kept as insertion list, read per key
       [] op = "push" -> [c EXCEPT ![i] = Append(@, a)]
@@ -210,14 +225,16 @@ Lex(toks, p, acc) ==
 
 (* value parsers of the individual arguments; "misparse" when the text splits differently *)
 OccBad(i, ts) ==
-    CASE Class(i) = "triples" -> ~Ideal /\ (HasEq(ts[2][2]) \/ HasEq(ts[2][3]) \/ HasColons(ts[2][3]))
+    CASE Class(i) = "triples" -> ~Ideal /\ HasEq(ts[2][2])   \* split_once('=') cuts inside TYPE: no `::` left of it
+                                 \* ('=' or '::' inside FIELD re-split to another triple that renders to the same text)
       [] OTHER -> FALSE
 
 ApplyOcc(c, o) ==
     LET i == o[1] ts == o[2] IN
-    CASE Class(i) = "bool" -> [c EXCEPT ![i] = (ts[1][2] = Rows[i].flag) = Rows[i].flag_value]
+    CASE Class(i) = "bool" -> SetBool(c, i, (ts[1][2] = Rows[i].flag) = Rows[i].flag_value)
       [] Class(i) = "list" -> [c EXCEPT ![i] = Append(@, ts[2][2])]
-      [] Class(i) \in {"optstr", "edition"} -> [c EXCEPT ![i] = <<ts[2][2]>>]
+      [] Class(i) = "optstr" -> IF Rows[i].kind = "abspath" THEN [c EXCEPT ![i] = <<ts[2][2]>>] ELSE SetOpt(c, i, ts[2][2])
+      [] Class(i) \in {"edition"} -> [c EXCEPT ![i] = <<ts[2][2]>>]
       [] Class(i) = "depfile" -> [c EXCEPT ![i] = << <<"mod", ts[2][2]>> >>]
       [] Class(i) \in {"str", "enum"} -> [c EXCEPT ![i] = ts[2][2]]
       [] Class(i) = "map" -> IF Rows[i].shape = "two_values"
@@ -282,8 +299,11 @@ Init == cfg = Apply(Default, HeaderSetter) /\ hist = <<>>     \* every configura
 
 Allowed(s) ==
     CASE Mode = "single" -> TRUE
-      [] Mode = "pairs" -> IF Class(s[1]) # "bool" THEN FALSE ELSE IF hist = <<>> THEN TRUE ELSE hist[Len(hist)][1] < s[1]
-      [] Mode = "seq" -> Field(s[1]) \in SeqRows
+      [] Mode = "pairs" -> IF Class(s[1]) # "bool" THEN FALSE ELSE IF hist = <<>> THEN TRUE
+                           ELSE IF hist[Len(hist)][1] < s[1] THEN TRUE
+                           ELSE IF hist[Len(hist)][1] = s[1] THEN FALSE
+                           ELSE IF Rows[s[1]].also # <<>> THEN TRUE ELSE Rows[hist[Len(hist)][1]].also # <<>>   \* both orders for coupled setters
+      [] Mode \in {"seq", "seqsim"} -> Field(s[1]) \in SeqRows
       [] Mode = "sim" -> IF Class(s[1]) \in {"list", "map", "headers", "clang_args"} THEN TRUE
                          ELSE \A j \in DOMAIN hist : hist[j][1] # s[1]   \* (no disjunction here: TLC would split it as an action)
 Step(s) == /\ Len(hist) < MaxLen
@@ -291,9 +311,9 @@ Step(s) == /\ Len(hist) < MaxLen
            /\ cfg' = Apply(cfg, s)
            /\ hist' = Append(hist, s)
 AllSetters == UNION {SettersOf(i) : i \in RowIdx}
-(* Mode "sim" (tlc -simulate): one random enabled setter per step instead of all successors *)
+(* Modes "sim", "seqsim" (tlc -simulate): one random enabled setter per step instead of all successors *)
 NextSim == LET en == {s \in AllSetters : Allowed(s)} IN en # {} /\ Step(RandomElement(en))
-Next == IF Mode = "sim" THEN NextSim ELSE \E i \in RowIdx : \E s \in SettersOf(i) : Step(s)
+Next == IF Mode \in {"sim", "seqsim"} THEN NextSim ELSE \E i \in RowIdx : \E s \in SettersOf(i) : Step(s)
 Spec == Init /\ [][Next]_vars
 
 Law == RoundTrip(cfg).ok
